@@ -7,6 +7,7 @@ import Rare.Proofs.C17Pool
 import Rare.Proofs.C17Sel
 import Rare.Proofs.C17Iter
 import Rare.Proofs.C17Heap
+import Rare.Proofs.C17HeapI
 import Rare.Proofs.C17Extra
 import Rare.Model.Expr.Std
 import Rare.Gen.C17
@@ -1169,6 +1170,14 @@ theorem word_select_spec (ctx : Ctx) (a0 a1 : Stage) (s i : Bytes) (idx : Int)
   simp only [hi, Comp.run]
   rw [selectField_words s idx hq]
 
+/-- The boundary of `word_select_spec`: with a double quote in the string `selectField` is no longer word
+    selection – white space (and NUL) between quotes does not separate, and a quote that opens the string stays
+    in the answer: `"a b"` has the one word `"a b` for `{select}`, the words `"a` and `b"` for `selectWord`. -/
+theorem word_select_quote_boundary :
+    Funcs.Strings.selectField [34, 97, 32, 98, 34] 0 = [34, 97, 32, 98] ∧ selectWord [34, 97, 32, 98, 34] 0 = [34, 97] ∧
+    Funcs.Strings.selectField [34, 97, 32, 98, 34] 1 = [] ∧ selectWord [34, 97, 32, 98, 34] 1 = [98, 34] := by
+  decide +kernel
+
 /-- Words contain no delimiter, and plain words joined by single delimiter bytes (an array of plain elements,
     the result of `tab`, a blank-separated line) are read back as themselves. -/
 theorem words_read_back (d : UInt8) (hd : isWordDelim d = true) (ws : List Bytes) (hne : ws ≠ [])
@@ -1371,6 +1380,19 @@ theorem pooled_noninterference (root root2 : Ctx) (t2 : C17Heap.Tm) (ht2 : Total
     (good_root h g.pool) (by simp)
   exact ⟨_, h', e, g.frame fr (by simp), ctxOf_frame root g fr (by simp)⟩
 
+/-- **Every pool state the process can be in satisfies the hypotheses of `pooled_template_spec`.**  From
+    `NewObjectPool(n)`, after any sequence of `Get`s and `Return`s of checked-out objects in any order (`Reach`,
+    the worlds of `pool_exclusive`): the free list has no duplicates and only allocated objects (`PoolOk`), and
+    every object somebody holds is `Held` – so any chain of distinct objects held by the evaluating goroutine's
+    enclosing helpers is `Good`, whatever the other goroutines hold. -/
+theorem reachable_pool_good (n : Nat) (w : World) (h : Reach n w) :
+    PoolOk w.pool ∧ ∀ o ∈ w.held, Held w.pool o := by
+  obtain ⟨hn, hb⟩ := inv_reach h
+  have hna := List.nodup_append.mp hn
+  refine ⟨⟨hna.1, fun o ho => hb o (List.mem_append_left _ ho)⟩, fun o ho => ⟨hb o (List.mem_append_right _ ho), ?_⟩⟩
+  intro hf
+  exact hna.2.2 o hf o ho rfl
+
 /-- The statement order `ev` follows – which helper evaluates its array argument before `Get`, which after; the
     stage and the two values of every `Eval` – is the one in funcsRange.go (regenerated table). -/
 theorem heap_machine_matches_source : Gen.C17.helperSteps = C17Heap.sourceOrder := by decide
@@ -1399,6 +1421,60 @@ example : Total exNested :=
 /-- A non-root situation: the object 3 is checked out and heads the chain. -/
 example : Good ⟨⟨[0, 1], 4⟩, fun _ => ⟨.root, [5], [6]⟩⟩ [3] (.obj 3) :=
   ⟨⟨by decide, by decide⟩, ⟨rfl, trivial⟩, by simp, by intro o ho; simp at ho; subst ho; exact ⟨by decide, by decide⟩⟩
+
+/-! ## … and with the other goroutines running in between
+
+`Model/C17HeapI.lean`: the same machine with an interference oracle applied at every scheduling point (after
+`Get`, after the overwrite, after each `Eval`'s stores, after every context look-up, after `Return`); the heap's
+clock advances at each point, so the oracle can act differently every time. -/
+
+/-- **Under every schedule.**  Let `env` be ANY interference that obeys `Rely`: at a scheduling point the other
+    goroutines may take objects from the pool, allocate, hand back objects that are not this evaluation's, and
+    write anything into every object this evaluation has not checked out – as long as the pool stays in order
+    (`PoolInv`: no duplicates in the free list, none of this evaluation's objects in it; that the others return
+    only what they hold is `pool_exclusive`) and this evaluation's checked-out objects keep their fields.  Then
+    for every total template, from every heap and every context chain of checked-out objects, the interleaved
+    machine answers what the pool-free model answers – `val t` – never overflows the stack, and afterwards this
+    evaluation holds exactly the objects it held before, with their fields untouched. -/
+theorem pooled_template_interleaved (env : C17HeapI.HeapI → C17HeapI.HeapI) (henv : ∀ h, Rely h (env h))
+    (root : Ctx) (fuel : Nat) (t : C17Heap.Tm) (ht : Total t)
+    (ref : C17Heap.Ref) (h : C17HeapI.HeapI) (l : List Nat) (g : GoodI h l ref)
+    (hf : l.length + C17Heap.depth t < fuel) :
+    ∃ h', C17HeapI.evI env root fuel t ref h = .ok (val t (ctxOf root h.objs l), h') ∧
+      (C17Heap.den t).run (ctxOf root h.objs l) = .ok (val t (ctxOf root h.objs l)) ∧
+      FrameI h h' [] := by
+  obtain ⟨h', e, fr⟩ := evI_val henv root fuel t ht ref h l g hf
+  exact ⟨h', e, den_val t _ ht, fr⟩
+
+/-- An interference that uses its freedom: at every scheduling point it overwrites EVERY object this evaluation
+    has not checked out (parent pointing at the object itself, garbage values) and allocates one more object. -/
+private def envScribble (h : C17HeapI.HeapI) : C17HeapI.HeapI :=
+  { h with objs := fun n => if h.mine n then h.objs n else ⟨.obj n, [33], [63]⟩,
+           pool := { h.pool with next := h.pool.next + 1 } }
+
+example : ∀ h, Rely h (envScribble h) := fun h =>
+  ⟨fun ⟨a, b, c⟩ => ⟨a, fun o ho => ⟨Nat.lt_succ_of_lt (b o ho).1, (b o ho).2⟩, fun o ho => Nat.lt_succ_of_lt (c o ho)⟩,
+   Nat.le_succ _, fun _ => rfl, fun x hx => by simp [envScribble, hx]⟩
+
+private def exRootI : Ctx := { getMatch := fun _ => [97, 0, 98], getKey := fun _ => [107] }
+private def exNestedI : C17Heap.Tm :=
+  .map (.scalar (Comp.match_ 0)) (.map (.scalar (Comp.match_ 0))
+    (.scalar (do let a ← Comp.match_ 0; let k ← Comp.key [107]; pure (a ++ k))))
+
+/-- **`Rely` is needed, and it is all that is needed** (`{@map {0} {@map {0} "{0}{k}"}}` on `a␀b`, key `k`): under
+    the scribbling interference the answer is `ak␀bk` as without any interference; an interference that also
+    writes into the objects this evaluation holds changes the answer. -/
+theorem interference_must_respect_ownership :
+    (match C17HeapI.evI envScribble exRootI 50 exNestedI .root ⟨⟨[0, 1], 2⟩, fun n => ⟨.obj n, [1], [2]⟩, fun _ => false, 0⟩ with
+      | .ok (v, _) => v == [97, 107, 0, 98, 107] | .error _ => false) = true ∧
+    (match C17HeapI.evI (fun h => { h with objs := fun _ => ⟨.root, [33], [63]⟩ }) exRootI 50 exNestedI .root
+        ⟨⟨[0, 1], 2⟩, fun n => ⟨.obj n, [1], [2]⟩, fun _ => false, 0⟩ with
+      | .ok (v, _) => v == [97, 107, 0, 98, 107] | .error _ => false) = false := by
+  decide +kernel
+
+/-- The initial situation of a line's evaluation satisfies `GoodI`: nothing checked out, a pool in order. -/
+example : GoodI ⟨⟨[0, 1], 2⟩, fun n => ⟨.obj n, [1], [2]⟩, fun _ => false, 0⟩ [] .root :=
+  goodI_root _ ⟨by decide, by intro o ho; simp at ho; rcases ho with e | e <;> simp [e], by simp⟩
 
 /-! ## `MakeArray` and `Splitter.NextOk` (the two functions of the anchor files no helper calls) -/
 
